@@ -69,11 +69,11 @@ class Frame(object):
                 self._type = "ack"
             elif frame == bytearray(b"\x00\x00\xFF\xFF\xFF"):
                 self._type = "err"
-            elif frame[3:5] == bytearray(b"\xff\xff"):
-                self._type = "data"
-            if self.type == "data":
+            elif frame[3:5] == bytearray(b"\xff\xff") and len(frame) >= 7:
                 length = struct.unpack("<H", bytes(frame[5:7]))[0]
-                self._data = frame[8:8+length]
+                if len(frame) >= 8 + length:  # else truncated, not usable
+                    self._type = "data"
+                    self._data = frame[8:8+length]
         else:
             frame = bytearray([0, 0, 255, 255, 255])
             frame += bytearray(struct.pack("<H", len(data)))
@@ -215,11 +215,12 @@ class Chipset(object):
             if ack.type == 'ack':
                 rsp = Frame(self.transport.read())
                 if rsp.type == 'data':
-                    if rsp.data[0] == 0xD7 and rsp.data[1] == cmd_code + 1:
+                    if rsp.data[0:2] == bytearray([0xD7, cmd_code + 1]):
                         return rsp.data[2:]
                     else:
-                        logmsg = "expected rsp code D7{:02X} not {:02X}{:02X}"
-                        log.error(logmsg.format(cmd_code+1, *rsp.data[0:2]))
+                        logmsg = "expected rsp code D7{:02X} not {}"
+                        log.error(logmsg.format(
+                            cmd_code+1, hexlify(rsp.data[0:2]).decode()))
                 else:
                     log.error("expected data but got {}".format(rsp.type))
             else:
@@ -958,6 +959,8 @@ class Device(device.Device):
         # (indistinguishable from a real crc error). We thus had to
         # switch off the crc check and do it here.
         data = self.chipset.in_comm_rf(data, timeout_msec)
+        if data is None:  # no usable response frame from the chipset
+            return None
         if len(data) > 2 and self.check_crc_a(data) is False:
             raise nfc.clf.TransmissionError("crc_a check error")
         return data[:-2] if len(data) > 2 else data
